@@ -11,7 +11,7 @@ import shutil
 import torch
 
 from common import BUILD, Infra, Raw, parse_sx, sx, time_limit
-from c11_canon import bits
+from c11_canon import bits, lock_behaviour
 from c12_fns import ask_batched
 
 # dtypes that can be built and compared on cpu (quantised dtypes and complex32 have no usable constructors)
@@ -274,6 +274,11 @@ def compare_history(run, m, td, case, consolidated, is_current):
             with time_limit(120):
                 r = pickle.loads(pickle.dumps(td)) if how == "pickle" else copy.deepcopy(td)
             got = by_path(obs_of(r))
+            if td.is_locked:
+                # "including lock state": the copy behaves locked (a sub-tensordict cannot be unlocked on its own, nothing can be added)
+                acc = lock_behaviour(r)
+                if acc:
+                    run.oracle_fail("pickle_equals_now", case, f"{how}: the copy reports is_locked but accepts: {', '.join(acc)}", f"{how}:lock-behaviour")
         except TimeoutError as e:
             raise Infra(f"{how} timed out: {e}")
         except Exception as e:  # noqa: BLE001
